@@ -31,6 +31,24 @@ use sync::{watch::WatchMode, SyncEngine};
 use tracing_subscriber::{fmt, EnvFilter};
 use transport::router::TransportRouter;
 
+/// In `--json` mode a failure that ends the whole run (a refused mass deletion, a state file that
+/// cannot be removed, an unreadable source root ...) must be in the event stream too, not only on
+/// standard error: consumers of the stream otherwise see a run that simply stops.
+fn json_fatal<T>(
+    json: bool,
+    destination: &std::path::Path,
+    result: error::Result<T>,
+) -> error::Result<T> {
+    if let (true, Err(e)) = (json, &result) {
+        sync::output::SyncEvent::Error {
+            path: destination.to_path_buf(),
+            error: e.to_string(),
+        }
+        .emit();
+    }
+    result
+}
+
 #[tokio::main]
 async fn main() -> Result<()> {
     // Parse CLI arguments
@@ -571,11 +589,19 @@ async fn main() -> Result<()> {
         if !cli.quiet && !cli.json {
             println!("Mode: Single file sync\n");
         }
-        engine
-            .sync_single_file(source.path(), destination.path())
-            .await?
+        json_fatal(
+            cli.json,
+            destination.path(),
+            engine
+                .sync_single_file(source.path(), destination.path())
+                .await,
+        )?
     } else {
-        engine.sync(source.path(), destination.path()).await?
+        json_fatal(
+            cli.json,
+            destination.path(),
+            engine.sync(source.path(), destination.path()).await,
+        )?
     };
 
     // Execute post-sync hook
